@@ -5365,6 +5365,7 @@ impl<Front: SocketHandler> ConnectionH2<Front> {
         let parts = &mut stream.split(&self.position);
         let was_initial = parts.rbuffer.is_initial();
         let elide_x_real_ip = parts.context.elide_x_real_ip;
+        let first_new_block = parts.rbuffer.blocks.len();
         let status = pkawa::handle_header(
             &mut self.decoder,
             &mut self.prioriser,
@@ -5377,6 +5378,12 @@ impl<Front: SocketHandler> ConnectionH2<Front> {
             self.flood_detector.config.max_header_fields,
             elide_x_real_ip,
         );
+        if !was_initial && status.is_ok() {
+            // trailer HEADERS frame: `on_request_headers` did not run on it
+            parts
+                .context
+                .elide_request_trailer_identity(parts.rbuffer, first_new_block, true);
+        }
         kawa.storage.clear();
         if let Err((error, global)) = status {
             match self.position {
